@@ -87,6 +87,8 @@ def judge(n, info, pick, damage, which, fail, mode, res, known=()):
     run1 = conv.convert(n, acc, base_opts + ["sol:chk:mode=0"])
     cobj = dict(model=nl.model_to_obj(n), pick=pick, damage=damage, which=which, fail=fail, mode=mode,
                 info=dict(ops=sorted(info["ops"]), nbprod=bool(info["nbprod"])))
+    if common.alloc_limit(run1, res):
+        return None
     if run1.sanitizer or run1.signal:
         return ("crash: %s" % common.crash_head(run1.err), cobj, "crash")
     fm = run1.dump
@@ -170,6 +172,8 @@ def judge(n, info, pick, damage, which, fail, mode, res, known=()):
         opts += ["sol:chk:feastol=0.01", "sol:chk:feastolrel=1e-6"]
     cfg = ["primal %s" % vd.vec(x)]
     run2 = conv.convert(n, acc, opts, extra_cfg=cfg)
+    if common.alloc_limit(run2, res):
+        return None
     if run2.sanitizer or run2.signal:
         return ("crash in the solution check: %s" % common.crash_head(run2.err), cobj, "crash")
     if run2.sol is None:
